@@ -68,3 +68,54 @@ func VhNewFacade() *PackagesFacade {
 		packageToFiles: map[string][]*ast.File{},
 	}
 }
+
+// VhLoadResult is what the engine's stand-in for packages.Load hands back (the go command is environment).
+var VhLoadResult []*packages.Package
+
+// C20 (glob filter, engine-only: the package loader is a stand-in): loading the package directories touched by the
+// globs registers exactly the files the globs matched - whatever else the loader finds in those directories - and a
+// failed load registers nothing.
+func vh_C20_glob_filter_E_Q() {
+	if !symxIsSymbolic() {
+		return
+	}
+	f := VhNewFacade()
+	names := []string{"/p/a.go", "/p/b.go", "/q/c.go"}
+	var syntax []*ast.File
+	for _, n := range names {
+		tf := f.fileSet.AddFile(n, -1, 100)
+		syntax = append(syntax, &ast.File{Package: token.Pos(tf.Base()), Name: ast.NewIdent("p")})
+	}
+	VhLoadResult = []*packages.Package{
+		{PkgPath: "example.com/p", Name: "p", Fset: f.fileSet, Syntax: syntax[:2]},
+		{PkgPath: "example.com/q", Name: "q", Fset: f.fileSet, Syntax: syntax[2:]},
+	}
+	relevant := map[string]struct{}{}
+	nMatched := 0
+	matched := make([]bool, len(names))
+	for k, n := range names {
+		if symxBool("matched" + string(rune('0'+k))) {
+			relevant[n] = struct{}{}
+			matched[k] = true
+			nMatched++
+		}
+	}
+	err := f.loadPackagesFiltered([]string{"/p", "/q"}, relevant)
+	got := f.GetAllSourceFiles()
+	if err != nil {
+		symxCover("C20.glob-filter.load-failed")
+		symxAssert(len(got) == 0, "C20.glob-filter.failed-load-registers-nothing")
+		return
+	}
+	symxCover("C20.glob-filter.loaded")
+	symxAssert(len(got) == nMatched, "C20.glob-filter.only-glob-matched-files-are-source-files")
+	for k := range names {
+		found := false
+		for _, g := range got {
+			if g == syntax[k] {
+				found = true
+			}
+		}
+		symxAssert(found == matched[k], "C20.glob-filter.file-is-a-source-file-iff-matched")
+	}
+}
